@@ -4,3 +4,4 @@ import LPVerif.Model.Prof
 import LPVerif.Driver.All
 import LPVerif.Props.C01
 import LPVerif.Props.C12
+import LPVerif.Props.C05
